@@ -210,10 +210,10 @@ func vspecKeyID(keytype, scheme string, algs []string, public string) string {
 }
 
 type vspecLoaded struct {
-	ok                     bool
-	keytype, scheme        string
-	public                 string
-	hasPrivate, hasCert    bool
+	ok                  bool
+	keytype, scheme     string
+	public              string
+	hasPrivate, hasCert bool
 }
 
 func vspecPem(typ, body string) string {
